@@ -533,6 +533,27 @@ def check_same_instant(acc, pendulum, loc, fa, fb):
             acc.mismatch("Interval.in_words", f"{loc}/same-instant-other-zone", case, r, e)
 
 
+def check_straddle(acc, pendulum, loc, z, t, before_s, after_s):
+    """Both endpoints in ONE named zone, on either side of an offset change: the phrase is within one unit of the true
+    elapsed time.  (The library decomposes such a pair on the zone's wall clock; where that differs from the elapsed
+    time by more than the statement allows it is the recorded finding C18-same-zone-straddle.)"""
+    d = data(loc)
+    tz = pendulum.timezone(z)
+    ia, ib = (t - before_s) * US + 250000, (t + after_s) * US + 250000
+    a, b = obs.utc_dt(pendulum, ia).in_timezone(tz), obs.utc_dt(pendulum, ib).in_timezone(tz)
+    el = ib - ia
+    days, rest = divmod(el, 86400 * US)
+    comps = [0, 0, days // 7, days % 7, rest // (3600 * US), rest // (60 * US) % 60, rest // US % 60]
+    wall = ref_comps(obs.wall_us(obs.expected_render(z, ia)[0]), obs.wall_us(obs.expected_render(z, ib)[0]))
+    for recv, other, future in ((a, b, False), (b, a, True)):
+        case = {"kind": "straddle", "loc": loc, "z": z, "t": t, "before": before_s, "after": after_s}
+        r = basic(acc, "diff_for_humans", f"{loc}/same-zone-straddle", case, lambda: recv.diff_for_humans(other, locale=loc))
+        ok = acceptable(d, comps, False, future, False)
+        if r is not None and ok and r not in ok:
+            kf = "C18-same-zone-straddle" if r in acceptable(d, wall, False, future, False) else None
+            acc.mismatch("diff_for_humans", f"{loc}/same-zone-straddle/phrase", case, r, sorted(ok), kf=kf)
+
+
 def check_fold_pair(acc, pendulum, loc):
     """A reference inside a repeated hour, first as its earlier then as its later occurrence (equal wall clocks, same
     tzinfo - they compare equal natively): 30 and 90 minutes after 01:00 EDT."""
@@ -624,6 +645,14 @@ def run_shard(shard):
                     check_same_instant(acc, pendulum, loc, tuple(fa), tuple(fb))
             with worker.guarded(acc, "diff_for_humans", {"kind": "foldpair", "loc": loc}):
                 check_fold_pair(acc, pendulum, loc)
+            for z in ("Europe/Paris", "America/New_York", "Australia/Lord_Howe"):
+                trs = [tr for tr in seeds.zone_transitions(z) if 1577836800 < tr[0] < 1640995200]
+                for t, _ob, _oa in trs:
+                    for before_s in (1800, 4500, 5 * 3600, 23 * 3600 + 900, 30 * 3600):
+                        for after_s in (0, 900, 3600, 22 * 3600):
+                            acc.c["nontrivial"] += 1
+                            with worker.guarded(acc, "diff_for_humans", {"kind": "straddle", "loc": loc, "z": z, "t": t, "before": before_s, "after": after_s}):
+                                check_straddle(acc, pendulum, loc, z, t, before_s, after_s)
         acc.sample({"same_instants_in": list(SI_ZONES), "pair": [list(SI_PAIRS[0][0]), list(SI_PAIRS[0][1])]})
     elif k == "pairs":
         pts = points()
@@ -647,6 +676,8 @@ def replay_case(case, acc):
         check_pair(acc, pendulum, case["loc"], case["ia"], case["ib"], case.get("global", False))
     elif k == "si":
         check_same_instant(acc, pendulum, case["loc"], tuple(case["fa"]), tuple(case["fb"]))
+    elif k == "straddle":
+        check_straddle(acc, pendulum, case["loc"], case["z"], case["t"], case["before"], case["after"])
     elif k == "foldpair":
         check_fold_pair(acc, pendulum, case["loc"])
     elif k == "words":
